@@ -635,7 +635,7 @@ def drv_select(case):
             if called and mode != "raise":
                 for sol in s.calls[0].get("answers", []):
                     returned.append({"none": sol[0] is None, "x": [proj.I(v) for v in sol[0]] if sol[0] is not None else []})
-            enum = _box_of_cols(rc["cols"]) <= (1 << 10) if called else False
+            enum = _box_of_cols(rc["cols"]) <= (1 << 9) if called else False
             out.append({"op": "select", "recipe": B.recipe_tokens(case["recipe"], tok), "model": pm,
                         "prios": [[[tok(k), proj.I(v)] for k, v in p.items()] for p in prios], "solver": mode, "only_leafs": only_leafs,
                         "called": called, "received": rc, "direct": {"rows": direct["rows"], "cols": direct["cols"], "dpv": direct["dpv"]},
